@@ -123,6 +123,12 @@ func RunWorker(h Hooks, cfg WorkerConfig) *WorkerResult {
 		if sc.LongLineAt >= 0 {
 			res.Probes["script-with-line-over-64KiB"]++
 		}
+		if len(sc.Bytes) > 4096 {
+			res.Probes["script-input-over-4KiB"]++
+		}
+		if m := mc.At(len(sc.Bytes)); m != nil && len(m.Stdout) > 4096 {
+			res.Probes["script-output-over-4KiB"]++
+		}
 		one := func(c Case, sweep bool) {
 			if res.Hung {
 				return // a previous execution never returned: its goroutine is still spinning
